@@ -1,3 +1,5 @@
+//go:build !verifmin
+
 package main
 
 import (
